@@ -146,15 +146,39 @@ def gate():
     return hits
 
 
-def regen():
-    """Regenerate Gen/*.v from the repository working tree (fail-closed)."""
+def cone_files(pid):
+    """Theory files (relative to theories/) in the import cone of Props/<pid>.v."""
+    seen, todo = set(), ["Props/%s.v" % pid]
+    while todo:
+        f = todo.pop()
+        if f in seen or not (THEORIES / f).exists():
+            continue
+        seen.add(f)
+        for m in re.finditer(r"From\s+NpTdms\s+Require\s+(?:Import|Export)?\s*([^.]*(?:\.[A-Za-z_][^.\s]*)*)\.",
+                             (THEORIES / f).read_text()):
+            for mod in m.group(1).split():
+                todo.append(mod.replace(".", "/") + ".v")
+    return seen
+
+
+def regen(pid=None):
+    """Regenerate Gen/*.v from the repository working tree (fail-closed).
+    With a property id, only the translators whose outputs (the Gen/<X>.v names their
+    source mentions) lie in that property's import cone are run."""
     gen_dir = VERIF / "harness" / "gen"
     logs = []
     if not gen_dir.exists():
         return logs
     env = dict(os.environ)
+    cone = cone_files(pid) if pid else None
     for script in sorted(gen_dir.glob("gen_*.py")):
-        rc, out = sh([PYTHON, str(script)], timeout=300, cwd=str(VERIF), env=env)
+        stems = set(re.findall(r"Gen/(\w+)", script.read_text()))
+        if cone is not None:
+            gen_in_cone = [c[4:-2] for c in cone if c.startswith("Gen/")]
+            used = any(g == s or (s.endswith("_") and g.startswith(s)) for g in gen_in_cone for s in stems)
+            if not used:
+                continue
+        rc, out = sh([PYTHON, str(script)], timeout=600, cwd=str(VERIF), env=env)
         logs.append((script.name, rc, out))
         if rc != 0:
             raise BuildError("translator %s failed (fail-closed)" % script.name, out)
@@ -427,7 +451,7 @@ class Run:
                 {"hits": hits}, kind="theorem-broken", theorem="gate", no_input=True))
             return False
         try:
-            regen()
+            regen(self.pid)
             info = props_check(self.pid, extra_files)
         except BuildError as e:
             m = re.search(r'File "([^"]+)", line (\d+)', e.log or "")
